@@ -224,6 +224,45 @@ def sc_refit_misc(cfg):
     return scenario
 
 
+class TsneStub(BaseEstimator):
+    """stands for sklearn's TSNE: records the perplexity each fit_transform actually ran with"""
+
+    seen = None
+
+    def __init__(self, perplexity=30.0):
+        self.perplexity = perplexity
+
+    def fit_transform(self, X, y=None):
+        TsneStub.seen.append((len(X), self.perplexity))
+        return numpy.column_stack([numpy.arange(len(X)) * 1.0, numpy.arange(len(X)) * 2.0 + 1])
+
+
+def sc_refit_tsne(cfg):
+    """PredictableTSNE clamps the perplexity of its t-SNE to the sample size: the clamp of one fit must not
+    leak into the next one (fit on a small sample, then on a larger one == one fresh fit on the larger one)"""
+    pt = loader.load("mlmodel.predictable_tsne")
+    from . import c02
+
+    def scenario(C):
+        c02.Inner.fail = False
+        perp = [2, 3, 5, 30][C.choice("perplexity", 4)]
+        nA, nB = 3 + C.choice("nA", 4), 3 + C.choice("nB", 6)
+        XA = numpy.arange(nA * 1.0).reshape(-1, 1)
+        XB = numpy.arange(nB * 1.0).reshape(-1, 1) + 1
+        TsneStub.seen = []
+        est = pt.PredictableTSNE(transformer=TsneStub(perplexity=perp), estimator=c02.Inner())
+        est.fit(XA, None)
+        est.fit(XB, None)
+        seen_refit = TsneStub.seen[-1]
+        fresh = pt.PredictableTSNE(transformer=TsneStub(perplexity=perp), estimator=c02.Inner()).fit(XB, None)
+        seen_fresh = TsneStub.seen[-1]
+        C.true(seen_refit == seen_fresh, "PredictableTSNE/refit==fresh-fit(perplexity-the-embedding-ran-with)", detail=dict(refit=seen_refit, fresh=seen_fresh, perplexity=perp))
+        C.true(est.transformer_.perplexity == fresh.transformer_.perplexity and est.get_params(deep=True)["transformer__perplexity"] == perp, "PredictableTSNE/refit==fresh-fit(transformer_-and-parameter)", detail=dict(refit=est.transformer_.perplexity, fresh=fresh.transformer_.perplexity, param=est.transformer.perplexity))
+        C.true(numpy.array_equal(est.mean_, fresh.mean_) and numpy.array_equal(est.inv_std_, fresh.inv_std_) and est.loss_ == fresh.loss_, "PredictableTSNE/refit==fresh-fit(mean_,inv_std_,loss_)")
+
+    return scenario
+
+
 # ------------------------------------------------------------------ (b) seed discipline
 
 
@@ -405,7 +444,7 @@ def sc_seed_piecewise(cfg):
     return c08.scenario_for(dict(classifier=True, binner="tree", reverse=False, weighted=False, train=3, query=1, buckets=2, seed=cfg["seed"], n_jobs=None))
 
 
-SCEN = dict(seed_piecewise=sc_seed_piecewise, refit_piecewise=sc_refit_piecewise, refit_perm=sc_refit_perm, refit_categories=sc_refit_categories, refit_cak=sc_refit_cak, refit_misc=sc_refit_misc, seed_ckm=sc_seed_ckm, seed_kml1=sc_seed_kml1)
+SCEN = dict(refit_tsne=sc_refit_tsne, seed_piecewise=sc_seed_piecewise, refit_piecewise=sc_refit_piecewise, refit_perm=sc_refit_perm, refit_categories=sc_refit_categories, refit_cak=sc_refit_cak, refit_misc=sc_refit_misc, seed_ckm=sc_seed_ckm, seed_kml1=sc_seed_kml1)
 
 
 def run_config(cfg):
@@ -433,6 +472,7 @@ def configs(tier):
             out.append(dict(kind="refit_categories", colsA=colsA, colsB=colsB, single=single))
     out.append(dict(kind="refit_cak"))
     out.append(dict(kind="refit_misc"))
+    out.append(dict(kind="refit_tsne"))
     for strategy in ("distance", "gain"):
         for kmeans0 in (True, False):
             out.append(dict(kind="seed_ckm", strategy=strategy, kmeans0=kmeans0, seed=0 if kmeans0 else 7))
@@ -451,6 +491,7 @@ def run(ctx, rep):
     rep.add_functions("mlmodel.kmeans_constraint", ["ConstraintKMeans.fit", "ConstraintKMeans.predict"])
     rep.add_functions("mlmodel._kmeans_constraint_", ["constraint_kmeans", "constraint_predictions", "_constraint_association_distance", "_constraint_association_gain", "_randomize_index", "_switch_clusters"])
     rep.add_functions("mlmodel.kmeans_l1", ["KMeansL1L2._fit_l1"])
+    rep.add_functions("mlmodel.predictable_tsne", ["PredictableTSNE.fit"])
     cfgs = configs(ctx.tier)
     rep.bounds = dict(refit="pairs (A, B) of 2-3 rows with different sizes / bucket layouts / label sets / categorical columns", seeds="integer random_state 0/3 and None; every draw symbolic and realised (n=2 points, k=2 clusters for ConstraintKMeans)")
     rep.assumptions = [
